@@ -294,7 +294,7 @@ def check_property(prop, tier, seed, modules, jobs=None, only=None, verbose=Fals
                    "verifier_output": {k: r.get(k) for k in ("verdict", "paths", "vcs", "discharged", "reason", "path")},
                    "how_to_replay": "./vf replay %s" % os.path.relpath(path, ROOT)}, open(path, "w"), indent=1, default=str)
         nviol += 1
-        if nviol <= 25:
+        if nviol <= int(os.environ.get("VERIF_MAXPRINT", "25")):
             if inputs is None:
                 print("VIOLATION property=%s replay=%s no-failing-input-found" % (prop, path))
             else:
